@@ -153,6 +153,14 @@ def rtBuiltin (f : Name) (pos : List Rt) (kw : List (Name × Rt)) : Option (List
     | [.int] => some [.int] | [.real] => some [.real] | [.cplx] => some [.real]
     | [.arr _] => some [.arr false] | [.user i] => some [.user i]
     | _ => some [.err]
+  else if f = "<builtin>matmul" ∨ f = "<builtin>linear_solve" then
+    match rtBind ["a", "b", "a_cols", "b_cols"] pos kw with
+    | [.arr c, .arr d, .int, .int] => some [.arr (c || d)]
+    | _ => some [.err]
+  else if f = "<builtin>transpose" then
+    match rtBind ["a", "a_cols"] pos kw with
+    | [.arr c, .int] => some [.arr c]
+    | _ => some [.err]
   else if f = "<builtin>array" then
     match rtBind ["n"] pos kw with
     | [.int] => some [.arr false] | [.bool] => some [.arr false]    -- `numpy.empty(n)` wants an integer
